@@ -8,7 +8,8 @@ base=/var/tmp/pv/$name
 rm -rf $base; mkdir -p $base
 git -C /repo worktree add --detach $base/repo HEAD >/dev/null 2>&1 || { echo "worktree failed"; exit 2; }
 git -C $base/repo apply "$patch" || { echo "APPLY FAILED $name"; git -C /repo worktree remove --force $base/repo; rm -rf $base; exit 2; }
-rsync -a --exclude .git --exclude sweep_logs --exclude replays /verif/ $base/verif/
+# the committed state of /verif (so that edits in progress do not leak into a long batch)
+mkdir -p $base/verif && git -C /verif archive HEAD | tar -x -C $base/verif
 mkdir -p $base/cache
 [ -d /var/tmp/sylvia-verif/target ] && cp -r /var/tmp/sylvia-verif/target $base/cache/target 2>/dev/null
 export VERIF_REPO=$base/repo VERIF_CACHE=$base/cache
